@@ -36,6 +36,11 @@ NAMED_SIDS = [k for k in range(len(STRUCTS)) if k not in ARRAY_SIDS]
 def is_array_sid(k): return k in ARRAY_SIDS
 def is_array(t): return is_struct(t) and sid_of(t) in ARRAY_SIDS
 def is_struct(t): return isinstance(t, str) and t[0] == "S"
+# enums: `type E<k> enum { V0, ..., V<n-1> }`. In the reference an enum value is the i32 number of its variant (only ==, !=,
+# match, passing, returning and storing are generated, so nothing can tell the difference); the concrete syntax differs.
+ENUMS = [3, 2, 5, 4]
+def is_enum(t): return isinstance(t, str) and len(t) > 1 and t[0] == "E" and t[1:].isdigit()
+def eid_of(t): return int(t[1:])
 def is_mutref(t): return isinstance(t, str) and t[0] == "&"      # "&S3": parameter type &'S3 (mutable reference)
 def base_ty(t): return t[1:] if is_mutref(t) else t
 def sid_of(t): return int(t[1:])
@@ -65,6 +70,7 @@ def r_expr(e):
         return "(%d)" % v if v < 0 else str(v)
     if k == "bool": return "true" if e[1] else "false"
     if k == "str": return '"%s"' % e[1]
+    if k == "elit": return "E%d::V%d" % (e[1], e[2])
     if k == "var": return "v%d" % e[1]
     if k == "bin": return "(%s %s %s)" % (r_expr(e[2]), e[1], r_expr(e[3]))
     if k == "un": return "(%s%s)" % (e[1], r_expr(e[2]))
@@ -123,7 +129,8 @@ def r_stmt(s, ind):
     if k == "match":
         out = ["%smatch %s {" % (p, r_expr(s[1]))]
         for v, b in s[3]:
-            out += ["%s    %s => {" % (p, "(%d)" % v if v < 0 else str(v))] + r_block(b, ind + 2) + ["%s    }" % p]
+            lab = "%s::V%d" % (s[2], v) if is_enum(s[2]) else ("(%d)" % v if v < 0 else str(v))
+            out += ["%s    %s => {" % (p, lab)] + r_block(b, ind + 2) + ["%s    }" % p]
         if s[4] is not None:
             out += ["%s    _ => {" % p] + r_block(s[4], ind + 2) + ["%s    }" % p]
         return out + ["%s}" % p]
@@ -165,6 +172,8 @@ def to_ferret(prog):
         for k, f in enumerate(prog):
             body += r_fn(k, f, k == len(prog) - 1)
     out = ['import "std/io";', ""]
+    for k in sorted({int(m) for l in body for m in re.findall(r"\bE(\d+)\b", l)}):
+        out.append("type E%d enum { %s };" % (k, ", ".join("V%d" % i for i in range(ENUMS[k]))))
     used = sorted({int(m) for l in body for m in re.findall(r"\bS(\d+)\b", l)})
     for k in used:
         out.append("type S%d struct { %s };" % (k, ", ".join(".F%d: %s" % (i, t) for i, t in enumerate(STRUCTS[k]))))
@@ -173,9 +182,10 @@ def to_ferret(prog):
 
 # ------------------------------------------------------------------ rendering to Coq (FV.Core.Syntax)
 
-def c_ity(t): return t.upper()
+def c_ity(t): return "I32" if is_enum(t) else t.upper()
 def c_ty(t):
     if t == "bool": return "TBool"
+    if is_enum(t): return "(TInt I32)"
     if t == "str": return "TStr"
     if t == "void": return "TVoid"
     if is_struct(t): return "(TStruct %d)" % sid_of(t)
@@ -187,6 +197,7 @@ def c_expr(e, types=None):
     if k == "lit": return "(ELit %s (%d)%%Z)" % (c_ity(e[1]), e[2])
     if k == "bool": return "(EBool %s)" % ("true" if e[1] else "false")
     if k == "str": return '(EStr "%s"%%string)' % e[1]
+    if k == "elit": return "(ELit I32 (%d)%%Z)" % e[2]
     if k == "var": return "(EVar %d)" % e[1]
     if k == "bin": return "(EBin %s %s %s)" % (COQ_OP[e[1]], c_expr(e[2]), c_expr(e[3]))
     if k == "un": return "(EUn %s %s)" % ("Neg" if e[1] == "-" else "Not", c_expr(e[2]))
@@ -314,6 +325,7 @@ class Gen:
         self.structs = True               # struct-typed locals, parameters, results, field reads and writes
         self.refs = True                  # parameters passed by mutable reference (&'S), written through by the callee
         self.strings = True               # str values: literals, concatenation, == / !=, parameters, results, printing
+        self.enums = True                 # enum values: variants, == / !=, match, parameters, results
         self.refparams = set()            # by-reference parameters of the function being generated
         # the borrow checker keeps a mutable borrow alive to the end of the statement: within one statement a variable that is
         # lent (&'x) may be read before the call (left to right) but is not mentioned after it, and is not the target of the
@@ -442,6 +454,11 @@ class Gen:
             return ("bin", "&&" if c == "and" else "||", lhs, rhs)
         if c == "call":
             return self.call_expr("bool", env, d)
+        evs = [(x, ty) for sc in env for x, (ty, _) in sc.items() if is_enum(ty)] if self.enums else []
+        if evs and r.random() < 0.12:
+            self.feat("enum-compare")
+            x, ty = r.choice(evs)
+            return ("bin", r.choice(["==", "!="]), ("var", x), self.enum_expr(ty, env, max(d - 1, 0)))
         if self.strings and self.vars_of(env, "str") and r.random() < 0.12:
             self.feat("str-compare")
             return ("bin", r.choice(["==", "!="]), self.str_expr(env, max(d - 1, 0), nonlit=True), self.str_expr(env, max(d - 1, 0)))
@@ -486,7 +503,19 @@ class Gen:
             return ("bin", "+", self.str_expr(env, d - 1), self.str_expr(env, d - 1))
         return ("str", "".join(r.choice(self.STR_ALPHABET) for _ in range(r.randint(1, 4))))
 
+    def enum_expr(self, t, env, d):
+        r = self.rng
+        vs = self.vars_of(env, t)
+        choices = ["lit"] * 2
+        if vs: choices += ["var"] * 3
+        if d > 0 and self.cands(env, lambda f: f[1] == t): choices += ["call"] * 2
+        c = r.choice(choices)
+        if c == "var": return ("var", r.choice(vs))
+        if c == "call": return self.call_expr(t, env, d)
+        return ("elit", eid_of(t), r.randrange(ENUMS[eid_of(t)]))
+
     def expr(self, t, env, d, nonlit=False):
+        if is_enum(t): return self.enum_expr(t, env, d)
         if t == "str": return self.str_expr(env, d, nonlit)
         if is_struct(t): return self.struct_expr(t, env, d)
         return self.bool_expr(env, d, nonlit) if t == "bool" else self.int_expr(t, env, d, nonlit)
@@ -523,6 +552,7 @@ class Gen:
     def any_ty(self, with_bool=True, with_struct=False):
         r = self.rng
         if with_struct and self.structs and r.random() < 0.18: return "S%d" % r.randrange(len(STRUCTS))
+        if with_struct and self.enums and r.random() < 0.1: return "E%d" % r.randrange(len(ENUMS))
         if with_bool and self.strings and r.random() < 0.1: return "str"
         if with_bool and r.random() < 0.2: return "bool"
         return r.choice(self.itys)
@@ -578,6 +608,9 @@ class Gen:
                 vs = [(x, ty) for x, ty in vs0 if x not in self.stmt_lent]
                 if vs and r.random() < 0.6:
                     x, ty = r.choice(vs)
+                    if is_enum(ty):
+                        es.append(("bin", "==", ("var", x), ("elit", eid_of(ty), r.randrange(ENUMS[eid_of(ty)]))))
+                        continue
                     es.append(("field", ("var", x), r.randrange(len(fields_of(ty))), is_array(ty)) if is_struct(ty) else ("var", x))
                 else:
                     es.append(self.expr(self.any_ty(), env, r.randint(1, 3), nonlit=True))
@@ -675,6 +708,21 @@ class Gen:
             env3 = env2 + [{x: (t, True)}]           # the loop variable is immutable
             body = self.block(env3, d - 1, True, ret, r.randint(1, 4), protected | {x, vlo, vhi} | ({step[1]} if step and step[0] == "var" else set()))
             return ("block", decls + [("for", x, t, ("var", vlo), ("var", vhi), body, incl, step)])
+        if c == "match" and self.enums and r.random() < 0.3:
+            evs = [(x, ty) for sc in env for x, (ty, _) in sc.items() if is_enum(ty)]
+            if evs:
+                x, ty = r.choice(evs)
+                n = ENUMS[eid_of(ty)]
+                e = ("var", x) if r.random() < 0.7 else self.enum_expr(ty, env, 1)
+                if r.random() < 0.4:
+                    vals = list(range(n)); r.shuffle(vals); default = None        # every variant has an arm
+                    if r.random() < 0.3: default = self.block(env, d - 1, inloop, ret, r.randint(1, 2), protected)
+                else:
+                    vals = r.sample(range(n), r.randint(1, n - 1))
+                    default = self.block(env, d - 1, inloop, ret, r.randint(1, 3), protected)
+                arms = [(v, self.block(env, d - 1, inloop, ret, r.randint(1, 3), protected)) for v in vals]
+                self.feat("match-enum")
+                return ("match", e, ty, arms, default)
         if c == "match":
             t = r.choice(self.itys)
             e = self.int_expr(t, env, r.randint(0, 2), nonlit=True)
@@ -712,6 +760,11 @@ class Gen:
             e = ("bool", self.rng.random() < 0.5) if t == "bool" else (self.str_expr(env, 0) if t == "str" else self.lit(t))
             env[-1][x] = (t, False)
             out.append(("let", x, t, e, False))
+        if self.enums:
+            x = self.fresh()
+            t = "E%d" % self.rng.randrange(len(ENUMS))
+            env[-1][x] = (t, False)
+            out.append(("let", x, t, ("elit", eid_of(t), self.rng.randrange(ENUMS[eid_of(t)])), False))
         if self.structs:
             for k in self.rng.sample(range(len(STRUCTS)), 2):
                 x = self.fresh()
